@@ -3,11 +3,13 @@ package main
 import (
 	"encoding/base64"
 	"encoding/json"
+	"fmt"
 	"math/rand"
 	"net/http"
 	"net/http/httptest"
 	"reflect"
 	"strings"
+	"sync"
 	"time"
 
 	"github.com/buzzfeed/sso/internal/pkg/aead"
@@ -222,6 +224,79 @@ func aeadStores() M {
 	return M{"kind": "stores", "stores": obs, "genuine": []string{}, "variants": []M{}, "openOtherKey": "err", "raw": aeadCase{Kind: "stores"}}
 }
 
+// aeadParallel: the ciphers one process runs side by side (sso-auth: session-cookie cipher and auth-code cipher; sso-proxy:
+// one per cookie store) sealing and opening at the same time from several goroutines each. Every value opens under the
+// cipher that sealed it to exactly what was sealed, and under no other.
+func aeadParallel(rounds int) M {
+	mk := func(fill byte) *aead.MiscreantCipher {
+		sec := make([]byte, 32)
+		for i := range sec {
+			sec[i] = fill + byte(i)
+		}
+		c, err := aead.NewMiscreantCipher(sec)
+		if err != nil {
+			panic(err)
+		}
+		return c
+	}
+	ciphers := []*aead.MiscreantCipher{mk(3), mk(103)}
+	var mu sync.Mutex
+	counts := map[string]int{"sealed": 0, "sealError": 0, "rejected": 0, "wrong": 0, "crossed": 0, "panics": 0, "opensOther": 0}
+	first := map[string]string{}
+	note := func(k, detail string) {
+		mu.Lock()
+		counts[k]++
+		if _, ok := first[k]; !ok {
+			first[k] = detail
+		}
+		mu.Unlock()
+	}
+	var wg sync.WaitGroup
+	start := make(chan struct{})
+	for ci := range ciphers {
+		for g := 0; g < 4; g++ {
+			wg.Add(1)
+			go func(ci, g int) {
+				defer wg.Done()
+				<-start
+				for r := 0; r < rounds; r++ {
+					func() {
+						defer func() {
+							if x := recover(); x != nil {
+								note("panics", fmt.Sprint(x))
+							}
+						}()
+						want := sessions.SessionState{Email: fmt.Sprintf("user-%d-%d-%d@x.io", ci, g, r), AccessToken: strings.Repeat("t", 1+(r*7+g)%200), User: fmt.Sprintf("c%d", ci)}
+						v, err := ciphers[ci].Marshal(&want)
+						if err != nil {
+							note("sealError", err.Error())
+							return
+						}
+						note("sealed", "")
+						var got sessions.SessionState
+						if err := ciphers[ci].Unmarshal(v, &got); err != nil {
+							note("rejected", want.Email+": "+err.Error())
+						} else if got.Email != want.Email || got.AccessToken != want.AccessToken || got.User != want.User {
+							if got.User != want.User {
+								note("crossed", want.Email+" opened as "+got.Email)
+							} else {
+								note("wrong", want.Email+" opened as "+got.Email)
+							}
+						}
+						var other sessions.SessionState
+						if err := ciphers[1-ci].Unmarshal(v, &other); err == nil {
+							note("opensOther", want.Email)
+						}
+					}()
+				}
+			}(ci, g)
+		}
+	}
+	close(start)
+	wg.Wait()
+	return M{"kind": "parallel", "parallel": counts, "first": first, "rounds": rounds, "raw": aeadCase{Kind: "parallel", Repeat: rounds}}
+}
+
 func mustDec(s string) []byte {
 	b, err := base64.RawURLEncoding.DecodeString(s)
 	if err != nil {
@@ -273,6 +348,8 @@ func init() {
 			var o M
 			if c.Kind == "stores" {
 				o = aeadStores()
+			} else if c.Kind == "parallel" {
+				o = aeadParallel(c.Repeat)
 			} else {
 				o = aeadRun(c, k1, k2)
 			}
@@ -294,6 +371,7 @@ func init() {
 		t0 := time.Unix(1700000000, 0).UTC()
 		emit(aeadCase{Kind: "state", State: &aeadState{SessionID: "0123456789abcdef", RedirectURI: "/"}, Full: true, Seed: 1, Repeat: 1200})
 		emit(aeadCase{Kind: "stores"})
+		emit(aeadCase{Kind: "parallel", Repeat: 400 + n/4})
 		emit(aeadCase{Kind: "session", Sess: &sessions.SessionState{ProviderSlug: "idp", ProviderType: "sso", AccessToken: "at", RefreshToken: "rt",
 			RefreshDeadline: t0.Add(time.Hour), LifetimeDeadline: t0.Add(24 * time.Hour), ValidDeadline: t0.Add(time.Minute),
 			Email: "a@example.com", User: "a", Groups: []string{"g1", "g2"}, AuthorizedUpstream: "app.example.com"}, Full: true, Seed: 2})
